@@ -150,6 +150,17 @@ type Platform struct {
 	PCESVN uint16
 	PCEID  []byte // 2
 	FMSPC  []byte // 6
+	// CPUSVNBlob, when non-nil, is the content of the opaque CPUSVN octet string (element 18); by default it
+	// repeats the sixteen component values, as Intel issues it.
+	CPUSVNBlob []byte
+}
+
+// Blob is the content of the CPUSVN octet string.
+func (p Platform) Blob() []byte {
+	if p.CPUSVNBlob != nil {
+		return p.CPUSVNBlob
+	}
+	return p.CPUSVN[:]
 }
 
 // DefaultPlatform is the baseline honest platform.
@@ -293,7 +304,7 @@ func SGXElems(p Platform) (top map[string][]byte, tcb [][]byte) {
 		tcb = append(tcb, DERSeq(DEROID(SGXOid(2, i+1)), DERInt64(int64(p.CPUSVN[i]))))
 	}
 	tcb = append(tcb, DERSeq(DEROID(SGXOid(2, 17)), DERInt64(int64(p.PCESVN))))
-	tcb = append(tcb, DERSeq(DEROID(SGXOid(2, 18)), DEROctet(p.CPUSVN[:])))
+	tcb = append(tcb, DERSeq(DEROID(SGXOid(2, 18)), DEROctet(p.Blob())))
 	top = map[string][]byte{
 		"ppid":  DERSeq(DEROID(SGXOid(1)), DEROctet(p.PPID)),
 		"pceid": DERSeq(DEROID(SGXOid(3)), DEROctet(p.PCEID)),
